@@ -141,6 +141,8 @@ func execGraph(g *Graph, outcome string, st *counters) (r *modRun, harnessErr st
 		"json":   json.Module,
 		"hostv":  r.hostv,
 		// frozen values that the host supplies: operands of +, | inside the module
+		"libclo": libFactories()["libclo"],
+		"libdef": libFactories()["libdef"],
 		"hfs": frozenValue(starlarkstruct.FromStringDict(starlarkstruct.Default, starlark.StringDict{"z": starlark.MakeInt(1), "w": starlark.NewList([]starlark.Value{starlark.MakeInt(7)})})),
 		"hft": frozenValue(starlark.Tuple{starlark.MakeInt(1), starlark.NewList([]starlark.Value{starlark.MakeInt(7)})}),
 		"hfl": frozenValue(starlark.NewList([]starlark.Value{starlark.MakeInt(7)})),
@@ -185,6 +187,35 @@ func execGraph(g *Graph, outcome string, st *counters) (r *modRun, harnessErr st
 }
 
 func frozenValue(v starlark.Value) starlark.Value { v.Freeze(); return v }
+
+var (
+	libOnce sync.Once
+	libG    starlark.StringDict
+)
+
+// libFactories: a library module executed to completion (so frozen) before any
+// module under test; its functions create closures and functions with defaults
+// while the module under test runs.
+func libFactories() starlark.StringDict {
+	libOnce.Do(func() {
+		const src = `
+def libclo(a, b = None):
+    def c():
+        return (a, b)
+    return c
+def libdef(a, b = None):
+    def d(p = a, q = b):
+        return (p, q)
+    return d
+`
+		g, err := starlark.ExecFileOptions(fileOpts, newThread("lib"), "lib.star", src, nil)
+		if err != nil {
+			panic(err)
+		}
+		libG = g
+	})
+	return libG
+}
 
 // sweepReachable: every list, dict and set reachable from the globals through
 // the Go API (stashed node or not: values inside bigger structures, parts of
@@ -553,7 +584,10 @@ func (r *modRun) checkNode(i int, only string, second bool) *finding {
 		}
 		frozen := nodeFrozen
 		mut := canTwin && r.isMutator(v, content, op)
-		if op.callsFn {
+		if op.callsFn && (nd.Kind == kLibClo || nd.Kind == kLibDef) {
+			// the library's functions only return what they hold: a read
+			mut = false
+		} else if op.callsFn {
 			// the generated function body mutates its first kid
 			kid := nd.Kids[0]
 			frozen = r.reach[kid]
